@@ -309,7 +309,7 @@ def gen_zone_session(rng, z, nprobe=40, do_find=True, do_findn=False, lookups=Tr
                 yield {"op": "localtime", "a": {"u": W(u), "ns": rng.choice([0, 999999999])}}
             if do_find and rng.random() < 0.25:
                 yield {"op": "roundtrip", "a": {"u": W(u), "ns": rng.choice([0, 7])}}
-            if rng.random() < 0.15 and abs(u) < 2**62:
+            if rng.random() < 0.3 and abs(u) < 2**62:
                 yield {"op": "fromnanos", "a": {"N": W(u * 10**9 + rng.choice([0, 1, 500000000, 999999999])), "via": "zone", "type": {"off": 0, "dst": 0, "des": []}}}
         if do_find and MINT + 2**32 < u < MAXT - 2**32:
             # local times within one offset of the point: the four boundary seconds of a gap/fold at u for each offset pair
@@ -503,6 +503,10 @@ def gen_c13(rng, n):
         yield zone_event(z)
         if rng.random() < 0.3:
             yield {"op": "lookup", "a": {"u": W(rng.randint(-10**9, 10**9)), "via": "ref"}}
+    # every byte value at the first, a middle and the last position of an otherwise valid designation: the character class exactly
+    for c in range(256):
+        for des in ([c, 65, 66], [65, c, 66, 67], [65, 66, 67, 68, 69, 70, c]):
+            yield {"op": "type", "a": {"off": 3600, "dst": 0, "des": des, "nodes": 0, "via": "new"}}
     # local time types
     alphabet = [ord("A"), ord("z"), ord("0"), ord("9"), ord("+"), ord("-"), ord(" "), 0, 0x80, ord("_"), ord("/"), ord(":"), ord("<"),
                 ord(","), ord("."), ord("*"), ord("@"), ord("["), ord("`"), ord("{"), 0x7f, 0xff]       # the neighbours of every allowed range
@@ -1293,8 +1297,8 @@ def gen_render(rng, n):
 # ---- C09 ----
 TZ_NAMES = ["EST", "EDT", "CET", "CEST", "<-03>", "<+0530>", "<+14>", "ABCDEFG", "NZST", "AB", "ABCDEFGH", "<A B>", "<AB", "A1B", "<A1B>", "", "<>", "<->"]
 TZ_OFFS = ["5", "05", "+5", "-5", "5:30", "-0:30", "5:30:15", "24", "25", "24:59:59", "0", "-10", "+0", "-0", "5:60", "5:", "", "00005", "-24:59:59", "12:34:56", "1:2:3", "99999999999", "4294967296", "4294967301", "9999999999", "0:4294967296", "1:0:4294967297", "256", "65541"]
-TZ_DAYS = ["M259.2.0", "M3.258.0", "M3.2.256", "M3.2.262", "J65537", "65536", "J4294967297", "M3.0.1", "M3.2.1", "M3.2.0", "M11.1.0", "M10.5.0", "M1.1.0", "M12.5.6", "J60", "J300", "J1", "J365", "59", "300", "0", "365", "J0", "J366", "366", "M13.1.0", "M3.6.0", "M3.2.7", "M3.2", "M0.1.0", "M2.5.3", ""]
-TZ_TIMES = ["", "/2", "/0", "/24", "/25", "/-1", "/+2", "/167", "/168", "/2:30", "/-0:30", "/24:59:59", "/", "/2:60", "/-167:59:59", "/02:00:00", "/26", "/3:00:00"]
+TZ_DAYS = ["M03.2.0", "M3.02.0", "M3.2.00", "M003.05.06", "J060", "059", "J0365", "0365", "M259.2.0", "M3.258.0", "M3.2.256", "M3.2.262", "J65537", "65536", "J4294967297", "M3.0.1", "M3.2.1", "M3.2.0", "M11.1.0", "M10.5.0", "M1.1.0", "M12.5.6", "J60", "J300", "J1", "J365", "59", "300", "0", "365", "J0", "J366", "366", "M13.1.0", "M3.6.0", "M3.2.7", "M3.2", "M0.1.0", "M2.5.3", ""]
+TZ_TIMES = ["/02", "/002:00", "/2:00:00", "/24:30", "/24:59:59", "/-0:30", "/-0:00:01", "", "/2", "/0", "/24", "/25", "/-1", "/+2", "/167", "/168", "/2:30", "/-0:30", "/24:59:59", "/", "/2:60", "/-167:59:59", "/02:00:00", "/26", "/3:00:00"]
 
 
 def rand_tz_sentence(rng):
@@ -1588,6 +1592,11 @@ def gen_resolve(rng, n):
                         vfs.append([B(d + "/" + pn.lstrip(":")), list(tiny_tzif(rng))])
             a["pre"] = pre
         yield {"op": "resolve", "a": a, "g": 1}
+    # white space that is not ASCII white space is part of the value: a description padded with it is not a description
+    for ws in ["\x0b", "\u0085", "\u00a0", "\u2000", "\u2003", "\u2028", "\u3000", "\x1c"]:
+        for desc in ["HST10", "UTC0", "EST5EDT,M3.2.0,M11.1.0"]:
+            for s2 in (ws + desc, desc + ws):
+                yield {"op": "resolve", "a": {"s": B(s2), "dirs": [B("/zi")], "vfs": [], "via": "posix"}, "g": 1}
     # the same settings value used twice: a name found only in a later directory, then a name present in that directory and an earlier one
     for _ in range(max(4, n // 100)):
         nd = rng.randint(2, 4)
